@@ -740,6 +740,27 @@ def return_set(fn):
     return out
 
 
+def guarded_returns(fn, flow=None):
+    """Every returned leaf value with the branch facts under which it is returned: a list of
+    (leaf tree, frozenset of (atom, truth), return event).  'return c ? a : b' and 'if (c) return a; else return b;'
+    give the same result (the conditional operator's condition is added to the facts of each arm)."""
+    flow = flow or FactFlow(fn)
+    out = []
+
+    def leaves(e, facts, ev):
+        e = strip(e)
+        if e.get("k") == "cond":
+            a, pos = cond_atoms(e["c"])
+            leaves(e["t"], facts | {(a, pos)}, ev)
+            leaves(e["f"], facts | {(a, not pos)}, ev)
+        else:
+            out.append((e, frozenset(facts), ev))
+    for b, i, ev in fn.all_events():
+        if ev.get("k") == "return" and ev.get("e") is not None and (b, i) in flow.before:
+            leaves(ev["e"], set(flow.before[(b, i)] or ()), ev)
+    return out
+
+
 def first_outcome(fn, block_id, limit=20):
     """Follow the unique-successor chain from a block: ('return', tree) at the first return,
     ('branch', block_id) at the first conditional block, ('exit', None) at the exit."""
@@ -1051,6 +1072,43 @@ def bypass_path(fn, pred, start=None):
                 prev[t] = b
                 work.append(t)
     return None
+
+
+def derives_from(fn, tree, pred, depth=8):
+    """True if pred(text) holds for the tree itself or for the initialiser / an assigned value of a local variable the
+    tree (transitively) mentions: 'for (auto& c : xs) c()' derives from 'xs' whatever the loop variable is called and
+    whatever type the iterator has (unlike expand_locals, updates such as ++it do not stop the search)."""
+    defs = {}
+    for _, _, e in fn.all_events():
+        if e.get("k") == "decl" and e.get("init") is not None:
+            defs.setdefault(e["var"], []).append(e["init"])
+        elif e.get("k") == "write" and e.get("rhs") is not None and strip(e["lhs"]).get("k") == "var":
+            defs.setdefault(strip(e["lhs"])["name"], []).append(e["rhs"])
+    seen = set()
+
+    def names(x, acc):
+        if isinstance(x, dict):
+            if x.get("k") == "var":
+                acc.add(x.get("name"))
+            for v in x.values():
+                names(v, acc)
+        elif isinstance(x, list):
+            for v in x:
+                names(v, acc)
+        return acc
+    work = [(tree, depth)]
+    while work:
+        t, d = work.pop()
+        if pred(T(t)):
+            return True
+        if d <= 0:
+            continue
+        for n in names(t, set()):
+            if n in defs and n not in seen:
+                seen.add(n)
+                for init in defs[n]:
+                    work.append((init, d - 1))
+    return False
 
 
 def expand_locals(fn, tree, depth=4):
